@@ -143,7 +143,11 @@ class Reaction(Object):
         old_id = self._id
         self._id = value
         try:
-            # the solver may refuse the name: the reaction then keeps its identifier
+            # the solver may refuse a name: the reaction then keeps its identifier.
+            # Both names are put to the solver interface before a variable is
+            # renamed, a rename that is refused half-way leaves the variable unusable.
+            self.model.problem.Variable(self.id)
+            self.model.problem.Variable(self.reverse_id)
             forward_variable.name = self.id
             reverse_variable.name = self.reverse_id
         except Exception:
